@@ -189,6 +189,14 @@ impl VerifTokenizer<TerminalCommand> {
 
 #[allow(private_bounds)]
 impl<T: Clone + Ord + fmt::Debug + ItemInfo> VerifTokenizer<T> {
+    /// A tokenizer in its initial state over the same (shared) compiled automaton
+    pub fn fresh(&self) -> Self {
+        Self {
+            inner: MatcherDecoder::new(self.inner.automata.clone()),
+            fed: 0,
+        }
+    }
+
     /// Dump of the automaton this tokenizer runs
     pub fn dfa(&self) -> Vec<DfaStateDump> {
         dump_dfa(&self.inner.automata.automata)
